@@ -29,6 +29,82 @@ class Boom(Exception):
     """raised by the harness' own iterables in the middle of extend()"""
 
 
+class Endless(Exception):
+    """a call into the code under test did not return in time (a cyclic structure on a broken tree)"""
+
+
+def _fire(signum, frame):
+    raise Endless("no result in time")
+
+
+_ARMED = [None]
+
+
+class deadline(object):
+    """with deadline(seconds): ... -- raises Endless inside the block (main thread only; elsewhere no limit);
+    the handler is installed once, a block costs two setitimer calls; blocks may nest (the outer limit is dropped)"""
+
+    def __init__(self, seconds=3.0):
+        self.seconds = seconds
+
+    def __enter__(self):
+        if _ARMED[0] is None:
+            import signal
+            import threading
+            _ARMED[0] = threading.current_thread() is threading.main_thread()
+            if _ARMED[0]:
+                signal.signal(signal.SIGALRM, _fire)
+        if _ARMED[0]:
+            _setitimer(_ITIMER_REAL, self.seconds)
+        return self
+
+    def __exit__(self, *exc):
+        if _ARMED[0]:
+            _setitimer(_ITIMER_REAL, 0)
+        return False
+
+
+from signal import setitimer as _setitimer, ITIMER_REAL as _ITIMER_REAL      # noqa: E402
+
+
+def from_repo(ex):
+    """cheap core.raised_by_code_under_test: the innermost frame of the traceback lies in the repository under test"""
+    tb = ex.__traceback__
+    if tb is None:
+        return False
+    while tb.tb_next is not None:
+        tb = tb.tb_next
+    fn = tb.tb_frame.f_code.co_filename
+    rp = _RP.get(fn)
+    if rp is None:
+        import os
+        rp = _RP[fn] = os.path.realpath(fn)
+    return rp.startswith(_REPO[0])
+
+
+_REPO = [None]
+_RP = {}
+
+
+def _repo_root():
+    import os
+    _REPO[0] = os.path.realpath(os.environ.get("VERIF_REPO", "/repo")) + os.sep
+
+
+_repo_root()
+
+
+def bounded(it, bound):
+    """list(it), but never more than bound + 1 elements (the last one is then the marker Ellipsis)"""
+    out = []
+    for x in it:
+        if len(out) > bound:
+            out.append(Ellipsis)
+            break
+        out.append(x)
+    return out
+
+
 def U():
     import debian._util as m
     return m
@@ -354,6 +430,10 @@ class World(object):
 
     # ---- construction of a model state through the public API
     def build(self, st, rng):
+        with deadline():
+            self._build(st, rng)
+
+    def _build(self, st, rng):
         self.reset()
         m = U()
         conc = self.conc
@@ -418,6 +498,10 @@ class World(object):
 
     def observe(self, nval):
         """-> (state, shape) in the form of the STATE lines"""
+        with deadline():
+            return self._observe(nval)
+
+    def _observe(self, nval):
         bound = len(self.nodes) + 2
         lst, shapes, inlist = [], [], set()
         for l in self.lists:
@@ -443,21 +527,25 @@ class World(object):
                 ch.append([-3, x])         # reachable from no chain head: broken structure
         val = [self.conc.sym(self.nodes[x].value) if x in self.nodes else "-"
                for x in range(1, max([nval] + list(self.nodes)) + 1)]
-        os_ = [[self.conc.item_of(o) for o in s] for s in self.sets]
+        os_ = [[self.conc.item_of(o) for o in bounded(s, bound + 1000000)] for s in self.sets]
         state = {"lst": lst, "ch": sorted(ch), "val": val, "os": os_}
         shape = {"lists": shapes, "links": sorted(links)}
         return state, shape
 
     def observe_sets(self):
-        return [{"fwd": [self.conc.item_of(o) for o in s], "rev": [self.conc.item_of(o) for o in reversed(s)], "len": len(s)}
-                for s in self.sets]
+        with deadline():
+            return [{"fwd": [self.conc.item_of(o) for o in s], "rev": [self.conc.item_of(o) for o in reversed(s)], "len": len(s)}
+                    for s in self.sets]
 
     # ---- one model call through one of its public variants
     def apply(self, c, rng):
         try:
-            return self._apply(c, rng)
+            with deadline():
+                return self._apply(c, rng)
+        except Endless as ex:
+            return {"t": "?", "x": "the call does not return: %s" % ex}
         except Exception as ex:      # noqa: BLE001 -- what the code raises is an observation
-            if isinstance(ex, Boom) or core.raised_by_code_under_test(ex) or \
+            if isinstance(ex, Boom) or from_repo(ex) or \
                     (isinstance(ex, TypeError) and "argument" in str(ex)):      # a keyword / arity the code does not accept
                 return err_of(ex)
             raise
@@ -666,6 +754,12 @@ class World(object):
             return STOP
         self.its[i - 1] = g
         return self._yield(i, y)
+
+    def keep_only(self, live):
+        """forget the nodes the specification does not speak about any more (dropped; held by a list when it was cleared)"""
+        for x in [x for x in self.nodes if x not in live]:
+            n = self.nodes.pop(x)
+            self.ids.pop(id(n), None)
 
     def void_iterators(self, its):
         """the model says which iterators are void / exhausted after a call: never resume them"""
